@@ -17,6 +17,15 @@ pub(crate) fn eat_whitespace_and_commas(input: &[u8], inposp: &mut usize) {
     }
 }
 
+/// Look at the input character at `inpos`, or fail if the input ends before it
+#[inline]
+pub(crate) fn peek(input: &[u8], inpos: usize) -> Result<u8, Error> {
+    match input.get(inpos) {
+        Some(ch) => Ok(*ch),
+        None => Err(InnerError::JsonBad("Too short", inpos).into()),
+    }
+}
+
 /// Verify the next input character is as specified and move inposp past it
 #[inline]
 pub fn verify_char(input: &[u8], ch: u8, inposp: &mut usize) -> Result<(), Error> {
@@ -190,7 +199,7 @@ pub(crate) fn read_tags_array(
         eat_whitespace(input, inposp);
 
         // Check what is next
-        match input[*inposp] {
+        match peek(input, *inposp)? {
             b']' => {
                 *inposp += 1;
                 if tag_num != num_tags - 1 {
@@ -223,7 +232,7 @@ pub(crate) fn read_tags_array(
 // This does a quicker pass over the content than actual tag parsing does.
 pub(crate) fn count_tags(input: &[u8], mut inpos: usize) -> Result<usize, Error> {
     // First non-whitespace character after the opening brace
-    match input[inpos] {
+    match peek(input, inpos)? {
         b']' => return Ok(0), // no tags
         b'[' => (),           // expected
         _ => return Err(InnerError::JsonBad("Tag array bad initial character", inpos).into()),
@@ -235,7 +244,7 @@ pub(crate) fn count_tags(input: &[u8], mut inpos: usize) -> Result<usize, Error>
     eat_whitespace(input, &mut inpos);
 
     loop {
-        match input[inpos] {
+        match peek(input, inpos)? {
             b']' => return Ok(count),
             b',' => {
                 inpos += 1;
@@ -260,7 +269,7 @@ pub(crate) fn read_tag(
     *outposp += 2;
 
     // handle empty tag
-    if input[*inposp] == b']' {
+    if peek(input, *inposp)? == b']' {
         *inposp += 1;
         put(output, countpos, 0_u16.to_ne_bytes().as_slice())?;
 
@@ -284,7 +293,7 @@ pub(crate) fn read_tag(
         *inposp += inlen + 1;
 
         eat_whitespace(input, inposp);
-        match input[*inposp] {
+        match peek(input, *inposp)? {
             b',' => {
                 *inposp += 1;
                 eat_whitespace(input, inposp);
@@ -361,7 +370,7 @@ pub(crate) fn burn_string(input: &[u8], inposp: &mut usize) -> Result<(), Error>
             *inposp += 1;
         }
     }
-    if input[*inposp] == b'"' {
+    if peek(input, *inposp)? == b'"' {
         *inposp += 1;
         Ok(())
     } else {
@@ -374,14 +383,14 @@ pub(crate) fn burn_string(input: &[u8], inposp: &mut usize) -> Result<(), Error>
 pub(crate) fn burn_tag(input: &[u8], inposp: &mut usize) -> Result<(), Error> {
     eat_whitespace(input, inposp);
     // handle empty tag
-    if input[*inposp] == b']' {
+    if peek(input, *inposp)? == b']' {
         *inposp += 1;
         return Ok(());
     }
     verify_char(input, b'"', inposp)?;
     burn_string(input, inposp)?;
     eat_whitespace(input, inposp);
-    while input[*inposp] == b',' {
+    while peek(input, *inposp)? == b',' {
         *inposp += 1;
         eat_whitespace(input, inposp);
         verify_char(input, b'"', inposp)?;
@@ -413,7 +422,7 @@ pub(crate) fn burn_object(input: &[u8], inposp: &mut usize) -> Result<(), Error>
         eat_whitespace_and_commas(input, inposp);
 
         // Check for the end
-        if input[*inposp] == b'}' {
+        if peek(input, *inposp)? == b'}' {
             *inposp += 1;
             return Ok(());
         }
@@ -429,7 +438,7 @@ pub(crate) fn burn_array(input: &[u8], inposp: &mut usize) -> Result<(), Error> 
         eat_whitespace_and_commas(input, inposp);
 
         // Check for the end
-        if input[*inposp] == b']' {
+        if peek(input, *inposp)? == b']' {
             *inposp += 1;
             return Ok(());
         }
